@@ -59,19 +59,19 @@ def evaluate(docs, which=("C04",)):
     mres = fw.run_model(reqs)
     dres = fw.run_model([["denote", [lines_sexp(d["lines"])]] for d in docs])
     failures = {"C04": [], "C15": []}
-    stats = {"sat": 0, "unsat": 0, "illformed": 0, "compiler": 0, "hand": 0, "nontrivial": set(), "unsat_kinds": {}, "denotation_hypotheses_hold": 0}
+    stats = {"sat": 0, "unsat": 0, "illformed": 0, "compiler": 0, "hand": 0, "nontrivial": set(), "unsat_kinds": {}, "denotation_hypotheses_hold": {"strand": 0, "struct": 0}}
     for i, (d, r) in enumerate(zip(docs, impl)):
         stats[d["source"]] += 1
         if not isinstance(r, dict) or "strand" not in r:
             failures["C04"].append({"kind": "disagreement", "key": "impl-run", "summary": "runner failed: %r" % (r,), "replay": {"text": d["text"]}}); continue
-        fl = dres[i]
-        if isinstance(fl, list) and fl and all(x == "T" for x in fl): stats["denotation_hypotheses_hold"] += 1
-        elif fl != []:
-            names = ("same_graph", "spec_okb", "dgraph_ok")
-            bad = [n for n, x in zip(names, fl)] if not isinstance(fl, list) else [n for n, x in zip(names, fl) if x != "T"]
-            for pid in ("C04", "C15"):
-                failures[pid].append({"kind": "tie", "key": "denote:" + ",".join(bad), "summary": "hypothesis %s of the denotation theorems (seeded graph = declarative graph of the document / loaded specification well formed / node encoding increasing, links between declared nodes) fails for this document (strand layout): %r" % (",".join(bad), fl),
-                                      "replay": {"files": {"doc.pil": d["text"]}, "layout": "strand"}})
+        names = ("same_graph", "spec_okb", "dgraph_ok")
+        for lname, fl in zip(("strand", "struct"), dres[i] if isinstance(dres[i], list) and len(dres[i]) == 2 else (["?"], ["?"])):
+            if isinstance(fl, list) and fl and all(x == "T" for x in fl): stats["denotation_hypotheses_hold"][lname] += 1
+            elif fl != []:
+                bad = [n for n, x in zip(names, fl) if x != "T"] if isinstance(fl, list) and len(fl) == 3 else ["request"]
+                for pid in ("C04", "C15"):
+                    failures[pid].append({"kind": "tie", "key": "denote:%s:%s" % (lname, ",".join(bad)), "summary": "hypothesis %s of the denotation theorems (seeded graph = declarative graph of the document / loaded specification well formed / node encoding increasing, links between declared nodes) fails for this document (%s layout): %r" % (",".join(bad), lname, fl),
+                                          "replay": {"files": {"doc.pil": d["text"]}, "layout": lname}})
         for j, lay in enumerate(("strand", "struct")):
             so = lay == "struct"
             m = model_arrays(mres[2 * i + j])
